@@ -15,7 +15,7 @@ def handleHuge (impl : List String) : Verdict :=
     | some nd => v.withSpec true "order-dependence"
         s!"{nd} of 2 depth_sort settings change the z-buffered image of a scene of more than 65536 triangles; first at pixel ({impl.getD 2 "?"},{impl.getD 3 "?"})"
 
-def handle (case impl : List String) : Verdict :=
+def handleCore (case impl : List String) : Verdict :=
   if case.head? == some "huge" then handleHuge impl else
   let painter := case.contains "painter=1"
   let painter2 := case.contains "painter=2"
@@ -68,5 +68,9 @@ def handle (case impl : List String) : Verdict :=
       else v.withSpec true "painter-differs-from-zbuffer"
         s!"back-to-front painting without depth test differs from the z-buffer image at pixel ({px},{py}) for disjoint depth ranges"
     else v
+
+/-- `handleCore` plus the Float32 diagnostic tag (`RenderCommon.withF32`; never changes the status). -/
+def handle (case impl : List String) : Verdict :=
+  withF32 case impl (handleCore case impl)
 
 end Retro.Drv.C06
